@@ -27,7 +27,7 @@ type C04Scenario struct {
 
 func (C04) ID() string { return "C04" }
 func (C04) Rule() string {
-	return "layer histories as operation batches on a stateful store: 1-5 real layers + 0-3 empty history entries in any arrangement (valid, missing or inconsistent histories) over a universe of <=10 paths of depth <=4 on the alphabet {a,b,c,x,y}; per layer 0-6 operations: regular file (content tagged with layer and path), directory, symlink (absolute or relative target inside the root, including the root itself as '/' or as exactly as many '..' as the link is deep), whiteout of a file or of a directory at any height above existing files, opaque marker, non-directory replacing a directory and vice versa, whiteout + re-create in one layer; explicit parent-directory entries for all / some / no entries; names bare, './'-prefixed or absolute, directories with or without trailing slash; stream order parent-first or a seeded permutation; stream chunking seeded; requirer all / explicit path list / none; 1 in 8 scenarios with MaxFileBytes in {8,10,12} so that some files are skipped by the loader, 1 in 12 symlinks with a target outside the root (also skipped): skipped entries are modelled as absent from their layer; names that are string prefixes of sibling names (a / ab / a-) and names starting with the characters of the whiteout prefix (hosts, h, w, .w); loaded through FromV1Image (simulated v1.Image) or FromTarball (real docker-save tarball). Oracle: RefOverlay(D) - OCI overlay reference model with named deviations; every chain-layer view is compared by recursive ReadDir walk AND by direct Stat/Open of every universe path and every whiteout spelling of it; UnpackSquashed into the sandbox vs the final view; requirer law against the fully loaded views. evaluation = one scenario (1-2 image loads + 1 squashed unpack, all views); non-trivial = at least one deletion (whiteout, opaque marker, or type change of an existing path) takes effect on an existing entry; distinct = distinct scenario JSON"
+	return "layer histories as operation batches on a stateful store: 1-5 real layers + 0-3 empty history entries in any arrangement (valid, missing or inconsistent histories) over a universe of <=10 paths of depth <=4 on the alphabet {a,b,c,x,y}; per layer 0-6 operations: regular file (content tagged with layer and path), directory, symlink (absolute or relative target inside the root, including the root itself as '/' or as exactly as many '..' as the link is deep), whiteout of a file or of a directory at any height above existing files, opaque marker, non-directory replacing a directory and vice versa, whiteout + re-create in one layer, a second regular-file entry for a path of the same layer under another spelling ('app/x' and './app/x', different length; either may win, but size, readable bytes and content must be those of ONE of them); explicit parent-directory entries for all / some / no entries; names bare, './'-prefixed or absolute, directories with or without trailing slash; stream order parent-first or a seeded permutation; stream chunking seeded; requirer all / explicit path list / none; 1 in 8 scenarios with MaxFileBytes in {8,10,12} so that some files are skipped by the loader, 1 in 12 symlinks with a target outside the root (also skipped): skipped entries are modelled as absent from their layer; names that are string prefixes of sibling names (a / ab / a-) and names starting with the characters of the whiteout prefix (hosts, h, w, .w); loaded through FromV1Image (simulated v1.Image) or FromTarball (real docker-save tarball). Oracle: RefOverlay(D) - OCI overlay reference model with named deviations; every chain-layer view is compared by recursive ReadDir walk AND by direct Stat/Open of every universe path and every whiteout spelling of it; UnpackSquashed into the sandbox vs the final view; requirer law against the fully loaded views. evaluation = one scenario (1-2 image loads + 1 squashed unpack, all views); non-trivial = at least one deletion (whiteout, opaque marker, or type change of an existing path) takes effect on an existing entry; distinct = distinct scenario JSON"
 }
 
 // names include string prefixes of each other (a / ab / a-) - siblings are told apart by path
@@ -162,7 +162,7 @@ func (C04) Gen(rt *rapid.T, tier string) any {
 			return rapid.SampledFrom(cands).Draw(rt, label+".cand")
 		}
 		for j := 0; j < ne; j++ {
-			k := rapid.SampledFrom([]string{"f", "f", "f", "f", "d", "d", "l", "w", "w", "w", "o", "wr"}).Draw(rt, "kind")
+			k := rapid.SampledFrom([]string{"f", "f", "f", "f", "d", "d", "l", "w", "w", "w", "o", "wr", "dup"}).Draw(rt, "kind")
 			p := pick("path")
 			switch k {
 			case "f":
@@ -193,6 +193,28 @@ func (C04) Gen(rt *rapid.T, tier string) any {
 				add(Entry{Kind: "w", Path: p})
 			case "o":
 				add(Entry{Kind: "o", Path: p})
+			case "dup": // a second regular-file entry for a path of this layer, spelled differently
+				var fs []int
+				for i := range l.Entries {
+					if l.Entries[i].Kind == "f" {
+						fs = append(fs, i)
+					}
+				}
+				if len(fs) == 0 {
+					continue
+				}
+				first := l.Entries[rapid.SampledFrom(fs).Draw(rt, "dup.of")]
+				dupCount := 0
+				for i := range l.Entries {
+					if l.Entries[i].Kind == "f" && l.Entries[i].Path == first.Path {
+						dupCount++
+					}
+				}
+				if dupCount > 1 {
+					continue
+				}
+				l.Entries = append(l.Entries, Entry{Kind: "f", Path: first.Path, Perm: first.Perm, Dup: true,
+					Data: fmt.Sprintf("L%d:second entry for %s\n", li, first.Path)[:rapid.IntRange(6, 12+len(first.Path)).Draw(rt, "dup.len")]})
 			case "wr": // whiteout and re-creation in one layer
 				add(Entry{Kind: "w", Path: p})
 				if rapid.Bool().Draw(rt, "recreate_as_dir") {
@@ -207,6 +229,9 @@ func (C04) Gen(rt *rapid.T, tier string) any {
 			s := style
 			if style == "mixed" {
 				s = rapid.SampledFrom([]string{"", "dot", "abs"}).Draw(rt, "entrystyle")
+			}
+			if l.Entries[i].Dup {
+				s = map[string]string{"": "dot", "dot": "", "abs": "dot", "mixed": "dot"}[style]
 			}
 			l.Entries[i].Style = s
 		}
@@ -268,10 +293,24 @@ func effectiveSpec(s *ImageSpec, maxFileBytes int64) *ImageSpec {
 	for _, l := range s.Layers {
 		nl := l
 		nl.Entries = nil
+		skippedDup := map[string]bool{}
 		for i := range l.Entries {
 			e := l.Entries[i]
 			if e.Kind == "f" && maxFileBytes > 0 && int64(len(e.Content())) >= maxFileBytes {
+				for j := range l.Entries {
+					if o := &l.Entries[j]; j != i && o.Kind == "f" && o.Path == e.Path {
+						for k := range nl.Entries {
+							if nl.Entries[k].Kind == "f" && nl.Entries[k].Path == e.Path {
+								nl.Entries[k].overDup = true
+							}
+						}
+						skippedDup[e.Path] = true
+					}
+				}
 				continue
+			}
+			if e.Kind == "f" && skippedDup[e.Path] {
+				e.overDup = true
 			}
 			if e.Kind == "l" && e.Target != "" && !strings.HasPrefix(e.Target, "/") {
 				if _, ok := linkTarget(e.Path, e.Target); !ok {
@@ -326,6 +365,8 @@ func sameModel(a, b map[string]MNode) string {
 	for _, p := range sortedKeys(a) {
 		x, y := a[p], b[p]
 		x.Layer, y.Layer = 0, 0
+		x.AltMixed, y.AltMixed = false, false
+		x.MaybeUnreadable, y.MaybeUnreadable = false, false
 		if _, ok := b[p]; !ok || !reflect.DeepEqual(x, y) {
 			return fmt.Sprintf("%s: %v vs %v", p, a[p], b[p])
 		}
